@@ -2,7 +2,7 @@
 # tools/revert_matrix.sh : for every fix commit, apply its reverse to a scratch copy and run the owning property's quick check;
 # expect exit 1 (the defect is detected again).
 cd /verif
-declare -A OWN=( [22cb80a]=C15 [66769b2]=C12 [314e52a]=C11 [f48a648]=C08 [dbcb8fe]=C08 [a922f38]=C04 [fd00c5c]=C16 [61d664c]=C16 [f11b015]=C16 [131988f]=C20 [7d8938e]=C07 [05216c9]=C18 [be94740]=C16 [2ee1906]=C03 [d61c8b2]=C18 [4ab1b8f]=C05 [1b20e0d]=C08 [d350821]=C16 [8411f79]=C19 [17b345c]=C16 [0cc1259]=C11 [49f31f2]=C10 [7493f30]=C10 [d3f0933]=C04 )
+declare -A OWN=( [22cb80a]=C15 [66769b2]=C12 [314e52a]=C11 [f48a648]=C08 [dbcb8fe]=C08 [a922f38]=C04 [fd00c5c]=C16 [61d664c]=C16 [f11b015]=C16 [131988f]=C20 [7d8938e]=C07 [05216c9]=C18 [be94740]=C16 [2ee1906]=C03 [d61c8b2]=C18 [4ab1b8f]=C05 [1b20e0d]=C08 [d350821]=C16 [8411f79]=C19 [17b345c]=C16 [1f2795c]=C11 [0cc1259]=C11 [49f31f2]=C10 [7493f30]=C10 [d3f0933]=C04 )
 for c in "${!OWN[@]}"; do
   p=$(ls mutants/revert_${c}_*.patch)
   r=$(SELFTEST_TAIL=400 ./selftest $p ${OWN[$c]} 2>&1)
